@@ -23,6 +23,7 @@ type Obligation struct {
 	Detail string
 	Cover  bool    // must be SAT (vacuity probe)
 	Clause *Clause // post: the ensures clause this obligation proves
+	Group  string  // obligations that together prove one clause share a group (vacuity lock counts groups)
 	// model extraction: named inputs of the function under verification
 }
 
@@ -65,6 +66,10 @@ type Exec struct {
 	// is itself the forall (positive position), where proving it for an arbitrary constant
 	// is the same as proving the quantified formula.
 	skolemNext *skolem
+	noFork   bool
+	pathMode bool // `split returns`: joins are not merged (bounded), see execNode
+	// nonNil holds the terms `(not (= p nil))` of pointers assumed non-nil on entry
+	nonNil map[string]bool
 }
 
 type skolem struct {
@@ -126,6 +131,9 @@ func (x *Exec) safety(f *frame, n *node, kind, detail, ok string, pos token.Pos)
 	if ok == "true" {
 		return
 	}
+	if kind == "nil" && x.nonNil[ok] {
+		return // the pointer is one the contract assumes non-nil (the method receiver)
+	}
 	if x.safeOn {
 		x.oblige("safe", kind+":"+detail, x.safeProps, and(n.reach, not(ok)), f.fn, pos)
 	}
@@ -169,6 +177,58 @@ type node struct {
 	epochs []*epoch
 	// lookups memo
 	memo map[ssa.Value]*Val
+	// variants: when an inlined callee returns along several paths, the rest of the block
+	// is executed once per return (path-sensitive), each time on a clone of the node
+	clones  []*node
+	primary *node
+	// facts: branch conditions (atoms) decided on every path to this node; branch: the
+	// condition of the If that ends the block
+	facts  map[string]bool
+	branch string
+}
+
+// factsAlong returns the facts that hold after leaving `from` along successor succIdx.
+func (f *frame) factsAlong(from *node, succIdx int) map[string]bool {
+	m := make(map[string]bool, len(from.facts)+1)
+	for k, v := range from.facts {
+		m[k] = v
+	}
+	if from.branch != "" && from.branch != "true" && from.branch != "false" && len(from.blk.Succs) == 2 {
+		a, neg := f.x.g.Atom(from.branch)
+		// successor 0 is taken when the condition holds
+		m[a] = (succIdx == 0) != neg
+	}
+	return m
+}
+
+func intersectFacts(a, b map[string]bool) map[string]bool {
+	m := map[string]bool{}
+	for k, v := range a {
+		if w, ok := b[k]; ok && w == v {
+			m[k] = v
+		}
+	}
+	return m
+}
+
+// fork returns a clone of n that continues the current block with its own state.
+func (n *node) fork() *node {
+	p := n
+	if n.primary != nil {
+		p = n.primary
+	}
+	c := &node{key: n.key, blk: n.blk, ctx: n.ctx, in: n.in, reach: n.reach, env: make(map[ssa.Value]Val, len(n.env)+8), heap: n.heap,
+		cutHdr: nil, epochs: n.epochs, memo: map[ssa.Value]*Val{}, primary: p, facts: n.facts}
+	for k, v := range n.env {
+		c.env[k] = v
+	}
+	p.clones = append(p.clones, c)
+	return c
+}
+
+// variants lists n and its clones.
+func (n *node) variants() []*node {
+	return append([]*node{n}, n.clones...)
 }
 
 type frame struct {
@@ -188,12 +248,20 @@ type frame struct {
 	outer     []*epoch // epochs active at the call site (for writes inside inlined callees)
 	paramVals map[*ssa.Parameter]Val
 	freeVals  map[*ssa.FreeVar]Val
+	keepCtx   bool
+	// forks created by the instruction being executed: clones that continue after it
+	forks     []*node
+	curCall   *ssa.Call
+	nVariants int
+	// facts known at the call site of an inlined callee
+	entryFacts map[string]bool
 }
 
 type retInfo struct {
 	reach string
 	val   Val
 	heap  *Heap
+	facts map[string]bool
 }
 
 func (f *frame) analyseLoops() {
@@ -317,6 +385,13 @@ func (f *frame) run(entryReach string, heap *Heap) {
 		}
 		for i, v := range n.blk.Succs {
 			nctx := map[int]int{}
+			if f.keepCtx {
+				// `split returns`: the code after an unrolled loop is unfolded once per exit
+				// iteration, so that every return statement is reached with concrete loop counts
+				for k, c := range n.ctx {
+					nctx[k] = c
+				}
+			}
 			for _, li := range f.inLoop[v] {
 				if li.unroll > 0 {
 					if c, ok := n.ctx[li.header.Index]; ok {
@@ -393,20 +468,27 @@ func (f *frame) run(entryReach string, heap *Heap) {
 	}
 
 	// 3. cut edges: unwinding assertions and invariant preservation
-	for _, c := range cuts {
-		if !c.from.done || c.succIdx >= len(c.from.edges) {
-			continue
-		}
-		cond := c.from.edges[c.succIdx]
-		if c.unwind {
-			if !f.spec && !x.inSpec() {
-				x.oblige("unwind", fmt.Sprintf("loop%d>%d", c.li.ordinal, c.li.unroll), nil, cond, fn, c.li.header.Instrs[0].Pos())
-			} else {
-				x.note("specification loop in %s unrolled %d times", fn.Name(), c.li.unroll)
+	for _, c0 := range cuts {
+		for _, from := range c0.from.variants() {
+			c := c0
+			c.from = from
+			if !c.from.done || c.succIdx >= len(c.from.edges) {
+				continue
 			}
-			continue
+			cond := c.from.edges[c.succIdx]
+			if cond == "false" {
+				continue
+			}
+			if c.unwind {
+				if !f.spec && !x.inSpec() {
+					x.oblige("unwind", fmt.Sprintf("loop%d>%d", c.li.ordinal, c.li.unroll), nil, cond, fn, c.li.header.Instrs[0].Pos())
+				} else {
+					x.note("specification loop in %s unrolled %d times", fn.Name(), c.li.unroll)
+				}
+				continue
+			}
+			f.checkInvariant(c.li, c.from, c.succIdx, cond, "inv-step")
 		}
-		f.checkInvariant(c.li, c.from, c.succIdx, cond, "inv-step")
 	}
 }
 
@@ -489,15 +571,25 @@ func (f *frame) execNode(n *node, entry *node, entryReach string, entryHeap *Hea
 	g := x.g
 	// merge incoming edges
 	var heap *Heap
+	var extra []*node
 	if n == entry && len(n.in) == 0 {
 		n.reach = entryReach
 		heap = entryHeap.clone()
+		n.facts = f.entryFacts
 	} else {
 		var conds []string
 		var hs []*Heap
 		var live []inEdge
-		for i := range n.in {
-			e := &n.in[i]
+		var expanded []inEdge
+		for _, e := range n.in {
+			for _, v := range e.from.variants() {
+				ne := e
+				ne.from = v
+				expanded = append(expanded, ne)
+			}
+		}
+		for i := range expanded {
+			e := &expanded[i]
 			if !e.from.done || e.succIdx >= len(e.from.edges) {
 				continue // predecessor ended in a panic / was never executed
 			}
@@ -519,8 +611,35 @@ func (f *frame) execNode(n *node, entry *node, entryReach string, entryHeap *Hea
 			}
 			return
 		}
+		// path-sensitive mode (`split returns`): a join is not merged; the block is executed
+		// once per incoming edge, on a variant of the node, while the number of variants of
+		// the frame stays under a cap (beyond it joins are merged as usual - both are sound)
+		if x.pathMode && !f.spec && !x.inSpec() && len(live) > 1 && n.cutHdr == nil && f.nVariants+len(live)-1 <= 600 {
+			f.nVariants += len(live) - 1
+			for _, e := range live[1:] {
+				c := &node{key: n.key, blk: n.blk, ctx: n.ctx, in: []inEdge{e}, reach: e.cond, env: map[ssa.Value]Val{}, heap: e.from.heap.clone(),
+					memo: map[ssa.Value]*Val{}, primary: n, facts: f.factsAlong(e.from, e.succIdx)}
+				for _, ep := range e.from.epochs {
+					if ep.loopBody()[n.blk] {
+						c.epochs = append(c.epochs, ep)
+					}
+				}
+				n.clones = append(n.clones, c)
+				extra = append(extra, c)
+			}
+			live = live[:1]
+			conds, hs = conds[:1], hs[:1]
+			n.in = live
+		}
 		n.reach = g.Fresh(SortBool, or(conds...))
 		heap = x.mergeHeaps(conds, hs)
+		n.facts = f.factsAlong(live[0].from, live[0].succIdx)
+		for _, e := range live[1:] {
+			n.facts = intersectFacts(n.facts, f.factsAlong(e.from, e.succIdx))
+		}
+		if n.cutHdr != nil {
+			n.facts = nil // the loop-carried state is havocked: facts about it do not survive
+		}
 		// epochs: inherited from predecessors that are inside the same cut loops
 		seen := map[*epoch]bool{}
 		for _, e := range live {
@@ -536,26 +655,45 @@ func (f *frame) execNode(n *node, entry *node, entryReach string, entryHeap *Hea
 		heap = f.enterCutLoop(n, heap)
 	}
 	n.heap = heap
-	x.budget -= len(n.blk.Instrs)
+	x.budget -= len(n.blk.Instrs) * (1 + len(extra))
 	if x.budget < 0 {
 		unsup("execution budget exceeded in %s", f.fn.Name())
 	}
-	for _, ins := range n.blk.Instrs {
-		if !f.execTolerant(n, ins) {
-			// path ends (panic): no outgoing edges
-			n.edges = make([]string, len(n.blk.Succs))
-			for i := range n.edges {
-				n.edges[i] = "false"
+	type pend struct {
+		n   *node
+		idx int
+	}
+	work := []pend{{n, 0}}
+	for _, c := range extra {
+		work = append(work, pend{c, 0})
+	}
+	savedForks := f.forks
+	f.forks = nil
+	for len(work) > 0 {
+		p := work[len(work)-1]
+		work = work[:len(work)-1]
+		cur := p.n
+		dead := false
+		for i := p.idx; i < len(cur.blk.Instrs); i++ {
+			ok := f.execTolerant(cur, cur.blk.Instrs[i])
+			for _, c := range f.forks {
+				work = append(work, pend{c, i + 1})
 			}
-			return
+			f.forks = nil
+			if !ok {
+				dead = true // path ends (panic): no outgoing edges
+				break
+			}
 		}
-	}
-	if n.edges == nil {
-		n.edges = make([]string, len(n.blk.Succs))
-		for i := range n.edges {
-			n.edges[i] = "false"
+		if dead || cur.edges == nil {
+			cur.edges = make([]string, len(cur.blk.Succs))
+			for i := range cur.edges {
+				cur.edges[i] = "false"
+			}
 		}
+		cur.done = true
 	}
+	f.forks = savedForks
 }
 
 func (ep *epoch) loopBody() map[*ssa.BasicBlock]bool { return ep.body }
